@@ -128,6 +128,18 @@ where
         self.queries.get_mut(&id)
     }
 
+    /// Verification hook: makes every query and every outstanding peer request `d` older.
+    #[cfg(discv5_verif)]
+    pub fn verif_age(&mut self, d: Duration) {
+        for query in self.queries.values_mut() {
+            query.started = query.started.map(|t| t.checked_sub(d).unwrap_or(t));
+            match &mut query.peer_iter {
+                QueryPeerIter::FindNode(iter) => iter.verif_age(d),
+                QueryPeerIter::Predicate(iter) => iter.verif_age(d),
+            }
+        }
+    }
+
     /// Polls the pool to advance the queries.
     pub fn poll(&mut self) -> QueryPoolState<'_, TTarget, TNodeId, TResult> {
         let now = Instant::now();
